@@ -19,9 +19,13 @@ class C18(Prop):
                 Suite("stack_atomic_free", "", [stackgen.gen_case(rng, "atomic_free", lockstep=False) for _ in range(n)], compare=False),
                 # small, frequently full stacks hammered by 4-8 free-running threads: conservation of the pushed elements (oracle only)
                 Suite("stack_stress", "", [stackgen.mk_stress(impl, rng.choice([2, 2, 4]), rng.randint(4, 8), 3000, rng.randint(1, 10**6))
-                                            for impl in ("atomic_stress", "parking_lot_stress") for _ in range(max(8, n // 15))], compare=False)]
+                                            for impl in ("atomic_stress", "parking_lot_stress") for _ in range(max(8, n // 15))], compare=False),
+                # the zero-copy queues' payload accesses (the plain read / write of a pool slot) are not scheduling points of the lock-step
+                # runs: small, mostly full queues hammered by 4 free-running threads, judged by conservation + per-producer FIFO (oracle only)
+                Suite("zcq_stress", "", [zcqgen.mk_stress(impl, rng.choice([2, 2, 4]), 4, 20000, rng.randint(1, 10**6))
+                                          for impl in ("atomic_stress", "fullsync_stress") for _ in range(max(6, n // 25))], compare=False)]
     def oracle(self, case, recs):
-        if case.meta.get("profile") == "stress": return stackgen.oracle_stress(case, recs)
+        if case.meta.get("profile") == "stress": return zcqgen.oracle_stress(case, recs) if case.line.startswith("zcq") else stackgen.oracle_stress(case, recs)
         if "impl" in case.meta and case.line.startswith("zcq"): return zcqgen.oracle(case, recs)
         return stackgen.oracle(case, recs)
     def nontrivial(self, case, recs):
